@@ -192,6 +192,24 @@ def step2 (line : String) : String :=
        ";".intercalate ((groupTags (fun p : Nat × Nat => p.1 == kk) tagged).map fun g =>
          " ".intercalate (g.map fun p => toString p.1 ++ ":" ++ toString p.2))
      | _, _ => "bad-op")
+  | ["bwrite", r, ts] =>
+    (match parseCTags ts with
+     | some tags => (match binWrite (r == "1") id tags with
+        | .ok bs => "ok " ++ showNats bs
+        | .error e => "err " ++ showErr e)
+     | none => "bad-op")
+  | ["bload", r, b] =>
+    (match parseNats b with
+     | some bs => showCTags (binLoad (r == "1") id bs)
+     | none => "bad-op")
+  | ["pfloat", s] =>
+    (match parseNats s with
+     | some t => (match parseFloat t with | some b => "ok " ++ toString b | none => "none")
+     | none => "bad-op")
+  | ["fltcheck", b, s] =>
+    (match b.toNat?, parseNats s with
+     | some bits, some t => (if floatLitOK bits t then "1" else "0")
+     | _, _ => "bad-op")
   | ["scanr12", s] =>
     (match parseNats s with
      | some d => (if loaderR12 d then "1" else "0")
